@@ -145,7 +145,16 @@ def main():
         meta['checks'] = det
         dst = os.path.join(VERIF, 'seeded', sid)
         os.makedirs(dst, exist_ok=True)
-        shutil.copy(patch, os.path.join(dst, 'patch.diff')); shutil.copy(demo, os.path.join(dst, 'demo.c'))
+        old = os.path.join(dst, 'meta.json')
+        if os.path.exists(old):
+            try:
+                prev = json.load(open(old))
+                if prev.get('disposition'):
+                    meta['disposition'] = prev['disposition']
+            except ValueError:
+                pass
+        if os.path.abspath(patch) != os.path.abspath(os.path.join(dst, 'patch.diff')):
+            shutil.copy(patch, os.path.join(dst, 'patch.diff')); shutil.copy(demo, os.path.join(dst, 'demo.c'))
         json.dump(meta, open(os.path.join(dst, 'meta.json'), 'w'), indent=1, ensure_ascii=False)
         print(json.dumps({'id': sid, 'status': 'confirmed', 'detected_by': meta['detected_by'], 'designated': det[prop]}))
         return 0
